@@ -434,19 +434,22 @@ func vbC12Main(shard, nshards int, tier string) {
 					continue
 				}
 				pf := vbProtoFactory(proto)
-				// size the payload so that the framed request is lim+d
-				n := lim - 200
-				S0 := vbMeasure(proto, vbMakeShape(shape, n))
-				n += lim + d - S0
+				// size the payload so that the framed request is lim+d: the framed size grows with n
+				// (by several bytes per unit for the element shapes and under JSON), so search for it
+				lo, hi := 0, lim+d
+				for lo < hi {
+					mid := (lo + hi) / 2
+					if vbMeasure(proto, vbMakeShape(shape, mid)) < lim+d {
+						lo = mid + 1
+					} else {
+						hi = mid
+					}
+				}
+				n := lo
 				args := vbMakeShape(shape, n)
 				S := vbMeasure(proto, args)
-				if S != lim+d {
-					n += lim + d - S
-					args = vbMakeShape(shape, n)
-					S = vbMeasure(proto, args)
-				}
-				if shape == "list" || shape == "many-small" {
-					// element granularity: take what we got
+				if shape == "list" || shape == "many-small" || (proto == "json" && shape == "binary") {
+					// element granularity (base64 quanta for JSON binary): take what we got
 				} else if S != lim+d {
 					res.fail("C12/harness-sizing", fmt.Sprintf("could not size %s/%s to %d (got %d)", proto, shape, lim+d, S))
 					continue
